@@ -91,7 +91,7 @@ def run(ctx, prop):
         digest = hashlib.sha1("\t".join(req[:1] + req[2:]).encode()).hexdigest()
         # non-trivial: the case exercises more than the key-id comparison / a trivial refusal
         if kind == "open":
-            key, pkt = bytes.fromhex(req[3]), (b"" if req[4] == "-" else bytes.fromhex(req[4]))
+            key, pkt = (b"" if req[3] == "-" else bytes.fromhex(req[3])), (b"" if req[4] == "-" else bytes.fromhex(req[4]))
             if pkt[:8] == hashlib.sha1(key).digest()[12:20]:
                 nontrivial.add(digest)
         elif kind in ("seal", "sopen", "sseal", "spkt", "user"):
